@@ -518,6 +518,12 @@ func oneRun(id int, r *vlib.Rand) {
 		srcArgs = append(srcArgs, s.Name)
 	}
 	common := []string{"-functions", "-flat", "-nodefraction=0", "-edgefraction=0"}
+	symNone := !unsym && r.Intn(4) == 0
+	if symNone {
+		// the symbolization mode is the Symbolizer plug-in's business: the stages around it do not depend on it
+		common = append(common, "-symbolize=none")
+	}
+	ctxOf["symbolize_none"] = symNone
 	var res *vdrv.Result
 	outOf := map[int]string{}
 	webErr := map[int]error{}
@@ -545,6 +551,9 @@ func oneRun(id int, r *vlib.Rand) {
 			if l.ev.Opt == "g" {
 				// the granularity flags are a radio group: the explicit default must go
 				common = []string{"-flat", "-nodefraction=0", "-edgefraction=0"}
+				if symNone {
+					common = append(common, "-symbolize=none")
+				}
 			}
 		}
 		return flags, kept, rep
